@@ -4,7 +4,7 @@
 
 namespace {
 
-enum Prop { P_C06, P_C02, P_C15, P_C20 };
+enum Prop { P_C06, P_C02, P_C15, P_C20, P_C08 };
 struct UserError { int k; };
 
 struct Sub { int fiber; int kind; uint64_t bit; long call = -1, ret = -1, exec_step = -1; int exec_idx = -1; int execs = 0; int exec_fiber = -1; bool threw_out = false;
@@ -16,7 +16,7 @@ struct St {
     int shared_alive = 0;
     int in_functor = 0;
     std::vector<uint64_t> order;       // bits in execution order
-    bool lbl_queued = false, lbl_direct = false, lbl_reader_blocked_writer = false;
+    bool lbl_queued = false, lbl_direct = false, lbl_reader_blocked_writer = false, lbl_try_null = false;
 };
 St* S = nullptr;
 
@@ -42,6 +42,9 @@ vh::Outcome run_def(const vh::Case& c, Prop prop) {
     bool faults = prop == P_C20;
     out.res = vrt::run(c.sched, [&] {
         D d(uint64_t(0));
+        vrt::MutexCore* core = vrt::rt().mutexes.empty() ? nullptr : vrt::rt().mutexes[0];     // m_mutex is the first mutex the wrapper constructs
+        constexpr bool share_capable = std::is_same<M, vstd::shared_mutex>::value || std::is_same<M, vstd::shared_timed_mutex>::value;
+        auto owns_shared = [&] { return core && (share_capable ? core->shared_by[vrt::self()] > 0 : core->owner == vrt::self()); };
         // the functor every submission runs
         auto body = [&st, faults](Sub& s, Tracked& t) {
             s.execs++;
@@ -90,6 +93,10 @@ vh::Outcome run_def(const vh::Case& c, Prop prop) {
                             return d.try_lock_shared();
                         }();
                         (void)is_try; (void)b0;
+                        if (bool(h) != owns_shared())
+                            vrt::fail("handle-truth", std::string("deferred_guarded shared handle is ") + (h ? "non-null" : "null") + " but the caller " + (owns_shared() ? "holds" : "does not hold") + " the lock");
+                        if (!h) st.lbl_try_null = true;
+                        if (h && (op.a & 2)) { h.unlock(); if (h) vrt::fail("unlock-not-null", "shared handle non-null after unlock()"); if (owns_shared()) vrt::fail("unlock-not-released", "lock still held after shared handle.unlock()"); }
                         if (h) {
                             st.shared_alive++;
                             uint64_t a = h->read();
@@ -148,12 +155,14 @@ vh::Outcome run_def(const vh::Case& c, Prop prop) {
     out.labels.push_back(std::string("M=") + MC<M>::name);
     if (st.lbl_queued) out.labels.push_back("queued-path");
     if (st.lbl_direct) out.labels.push_back("direct-path");
+    if (st.lbl_try_null) out.labels.push_back("try-null");
     if (out.res.faults_fired) out.labels.push_back("fault-fired");
     switch (prop) {
         case P_C06: out.nontrivial = st.lbl_queued && st.lbl_direct; break;
         case P_C02: out.nontrivial = st.lbl_queued; break;
         case P_C15: out.nontrivial = st.lbl_queued || (st.subs.size() >= 2 && out.res.blocked_events > 0); break;
         case P_C20: out.nontrivial = out.res.faults_fired > 0 && st.subs.size() >= 2; break;
+        case P_C08: out.nontrivial = st.lbl_try_null; break;
     }
     return out;
 }
@@ -180,6 +189,8 @@ vh::Register r2("C02d", spec(false, false), spec(true, false), [](const vh::Case
                 "as C06; non-trivial = a submission was queued because a reader (or writer) held the lock");
 vh::Register r15("C15d", spec(false, false), spec(true, false), [](const vh::Case& c) { return dispatch(c, P_C15); },
                  "as C06 with load(); oracle = every loaded value is one of the states in the single sequence of modifications");
+vh::Register r8("C08d", spec(false, false), spec(true, false), [](const vh::Case& c) { return dispatch(c, P_C08); },
+                "as C06; every shared handle returned by lock_shared / try_lock_shared(_for/_until) is compared with the modelled mutex's ownership, unlock() must null and release; non-trivial = a try returned null");
 vh::Register r20("C20d", spec(false, true), spec(true, true), [](const vh::Case& c) { return dispatch(c, P_C20); },
                  "as C06 plus a fault plan: the k-th functor invocation throws; non-trivial = the fault fired and at least two submissions were made");
 
